@@ -21,6 +21,8 @@ class Rat:
     def __init__(s, n, d=1):
         s.n = Fraction(n) if isinstance(n, int) else n
         s.d = Fraction(d) if isinstance(d, int) else d
+        if isinstance(s.n, Fraction) and isinstance(s.d, Fraction) and s.d != 1:
+            s.n = s.n / s.d; s.d = Fraction(1)       # constants stay normalised (ZeroDivisionError on a constant 0 divisor)
 
     @staticmethod
     def const(x):
